@@ -38,7 +38,8 @@ class GetChipInfo:
         from rig.utils.contexts import Context
         import types
         mc = MachineController.__new__(MachineController)
-        mc._context_stack = collections.deque([Context({})])
+        from rig.utils.contexts import ContextMixin
+        ContextMixin.__init__(mc, {})
         calls = []
 
         def send(*a, **k):
